@@ -44,6 +44,8 @@ class _State:
     abs_atoms = {}         # atom id -> SR q  (atom == |q|), so atom**2 == q**2
     nonneg_atoms = set()   # atoms known to be >= 0 (abs values, roots)
     squares = {}           # key of a*a -> a   (so sqrt(a*a) = |a| without a root atom)
+    sqrt_atoms = {}        # atom id -> radicand SR  (atom == sqrt(radicand) >= 0)
+    root_atoms = {}        # atom id -> (radicand polynomial SR, den)  (atom**den == radicand)
 
 
 ST = _State()
@@ -57,6 +59,8 @@ def reset_atoms():
     ST.abs_atoms = {}
     ST.nonneg_atoms = set()
     ST.squares = {}
+    ST.sqrt_atoms = {}
+    ST.root_atoms = {}
 
 
 def _new_atom(zexpr):
@@ -189,7 +193,7 @@ def _pmul(p1, p2):
                 p.pop(m, None)
     if len(p) > MAX_MONOMIALS:
         raise SymUnsupported('polynomial blow-up (%d monomials)' % len(p))
-    if ST.abs_atoms:
+    if ST.abs_atoms or ST.root_atoms:
         p = _reduce_abs_squares(p)
     return p
 
@@ -580,6 +584,18 @@ class SR(object):
         if d.is_const():
             return zop(d.const_value(), 0)
         if d.q is None:
+            if ST.sqrt_atoms and len(d.p) == 2 and zop in (operator.lt, operator.le, operator.gt, operator.ge):
+                # c1*A - c2*B ? 0 with c1, c2 > 0 and A, B non-negative atoms whose squares are known (sqrt(x) -> x,
+                # |q| -> q^2)   <=>   c1^2*A^2 - c2^2*B^2 ? 0   (no root atoms in the comparison)
+                (m1, c1), (m2, c2) = d.p.items()
+                if len(m1) == 1 and len(m2) == 1 and m1[0][1] == 1 and m2[0][1] == 1 and c1 * c2 < 0 and \
+                        (m1[0][0] in ST.sqrt_atoms or m2[0][0] in ST.sqrt_atoms):
+                    s1 = _square_of_nonneg_atom(m1[0][0])
+                    s2 = _square_of_nonneg_atom(m2[0][0])
+                    if s1 is not None and s2 is not None:
+                        if c1 < 0:
+                            (c1, s1), (c2, s2) = (c2, s2), (c1, s1)
+                        return lift(s1 * (c1 * c1))._cmp(s2 * (c2 * c2), op, zop)
             dd = _canon_sign(d)
             if dd[1]:   # flipped sign
                 zop = _FLIP[zop]
@@ -673,12 +689,19 @@ def _canon_sign(d):
 
 
 def _reduce_abs_squares(p):
-    """rewrite |q|**2 -> q**2 inside a polynomial (|q| atoms are registered by sym_abs)."""
-    for _ in range(8):
+    """rewrite |q|**2 -> q**2 and root**den -> radicand inside a polynomial (atoms registered by sym_abs/sym_pow)."""
+    def rule(a, e):
+        if a in ST.abs_atoms and e >= 2:
+            return ST.abs_atoms[a], 2, True
+        r = ST.root_atoms.get(a)
+        if r is not None and e >= r[1]:
+            return r[0], r[1], False
+        return None
+    for _ in range(12):
         hit = False
         for m in p:
             for a, e in m:
-                if e >= 2 and a in ST.abs_atoms:
+                if rule(a, e) is not None:
                     hit = True
                     break
             if hit:
@@ -689,8 +712,9 @@ def _reduce_abs_squares(p):
         for m, c in p.items():
             tgt = None
             for a, e in m:
-                if e >= 2 and a in ST.abs_atoms:
-                    tgt = (a, e)
+                r = rule(a, e)
+                if r is not None:
+                    tgt = (a, e, r)
                     break
             if tgt is None:
                 v = out.get(m, ZERO) + c
@@ -699,15 +723,14 @@ def _reduce_abs_squares(p):
                 else:
                     out.pop(m, None)
                 continue
-            a, e = tgt
-            rest = tuple((x, k) for x, k in m if x != a)
-            if e % 2:
-                rest = tuple(sorted(rest + ((a, 1),)))
-            q = ST.abs_atoms[a]
-            q2 = q * q
+            a, e, (base, k, squared) = tgt
+            rest = tuple((x, kk) for x, kk in m if x != a)
+            if e % k:
+                rest = tuple(sorted(rest + ((a, e % k),)))
+            repl = base * base if squared else base
             term = SR({rest: c})
-            for _k in range(e // 2):
-                term = term * q2
+            for _k in range(e // k):
+                term = term * repl
                 if not isinstance(term, SR):
                     break
             if isinstance(term, SR):
@@ -717,6 +740,12 @@ def _reduce_abs_squares(p):
                         out[m2] = v
                     else:
                         out.pop(m2, None)
+            elif term != 0:
+                v = out.get((), ZERO) + to_frac(term)
+                if v:
+                    out[()] = v
+                else:
+                    out.pop((), None)
         p = out
     return p
 
@@ -1029,13 +1058,18 @@ def sym_pow(x, e):
     cd = x.q[min(x.q)] if x.q is not None else ONE
     content = cn / cd
     if content < 0:
-        content = -content     # sign stays inside (x >= 0 on this path, so the canonical part carries it)
-        cn = -cn
-    if content != 1:
-        X = _mk(_pscale(x.p, 1 / cn), _pscale(x.q, 1 / cd) if x.q is not None else None)
-        cf = float(content) ** float(e)
-        r = sym_pow(X, e) if isinstance(X, SR) else float(X) ** float(e)
-        return r * cf
+        content = -content
+    # only the exact part of the content root is taken out (6.25**0.5 = 2.5, but 2**0.5 stays inside the radicand):
+    # the real-arithmetic model is never approximated by a rounded irrational constant
+    if num == 1:
+        rn = _int_root(content.numerator, den)
+        rd = _int_root(content.denominator, den)
+        f = Fraction(rn[0], rd[0])            # exact factor taken out
+        if f != 1:
+            inner = f ** den                 # part of the content that leaves the radicand
+            X = _mk(_pscale(x.p, 1 / inner), x.q)
+            r = sym_pow(X, e) if isinstance(X, SR) else float(X) ** float(e)
+            return r * f
     # perfect power of a single monomial over non-negative atoms
     if x.q is None and len(x.p) == 1:
         (m, c), = x.p.items()
@@ -1057,8 +1091,39 @@ def sym_pow(x, e):
         y = SR.atom(yv)
         (m, _), = y.p.items()
         ST.nonneg_atoms.add(m[0][0])
+        if num == 1 and den == 2:
+            ST.sqrt_atoms[m[0][0]] = x
+        if num == 1 and x.q is None:
+            ST.root_atoms[m[0][0]] = (x, den)
         eng.defs_cache[key] = y
     return y
+
+
+def _int_root(n, k):
+    """(r, rest) with n = r**k * rest and r as large as a simple search finds (exact integer arithmetic)."""
+    if n <= 1:
+        return (1, n)
+    r = int(round(n ** (1.0 / k)))
+    for c in (r, r + 1, r - 1):
+        if c > 0 and c ** k == n:
+            return (c, 1)
+    # strip small prime-power factors
+    out = 1
+    rest = n
+    for p in (2, 3, 5, 7, 11, 13):
+        while rest % (p ** k) == 0:
+            rest //= p ** k
+            out *= p
+    return (out, rest)
+
+
+def _square_of_nonneg_atom(a):
+    if a in ST.sqrt_atoms:
+        return ST.sqrt_atoms[a]
+    if a in ST.abs_atoms:
+        q = ST.abs_atoms[a]
+        return q * q
+    return None
 
 
 def sym_sqrt(x):
